@@ -78,6 +78,39 @@ def batch_members(t, nbatch):
     return t.reshape(-1, *t.shape[nbatch:])
 
 
+def extra_instances(rng, dtype, batch):
+    """Instances beyond the shared catalogue: single-point interpolation with non-unit weights, and operators
+    DERIVED from other operators (cat_rows / add_low_rank / add_jitter / scaling / slicing), whose samplers read
+    caches transplanted by the derivation."""
+    from linear_operator.operators import (DenseLinearOperator, InterpolatedLinearOperator, KroneckerProductLinearOperator,
+                                           ToeplitzLinearOperator, DiagLinearOperator)
+    from ..catalogue import Inst, interp_matrix, kron, psd_int, ri, toeplitz_dense
+    out = []
+    n, nb = 3, 4
+    base = psd_int(rng, batch, nb, dtype)
+    idx = torch.tensor([[rng.randrange(nb)] for _ in range(n)]).expand(*batch, n, 1).contiguous()
+    val = ri(rng, (*batch, n, 1), 2, 3, dtype)
+    W = interp_matrix(idx, val, nb)
+    out.append(Inst("Interpolated[1pt]", lambda c: (lambda s, t: (InterpolatedLinearOperator(DenseLinearOperator(s), idx.clone(), t, idx.clone(), t.clone()),
+                                                                  W @ base @ W.mT, [s, t]))(c(base), c(val)), psd=False))
+    A = psd_int(rng, batch, n, dtype)
+    B = ri(rng, (*batch, 2, n), -1, 1, dtype)
+    D = B @ torch.linalg.solve(A.double(), B.mT.double()).to(dtype) + torch.eye(2, dtype=dtype)
+    full = torch.cat([torch.cat([A, B.mT], -1), torch.cat([B, D], -1)], -2)
+    out.append(Inst("CatRows(Dense)", lambda c: (lambda s, t, u: (DenseLinearOperator(s).cat_rows(t, u), full, [s, t, u]))(c(A), c(B), c(D)), psd=True))
+    V = ri(rng, (*batch, n, 2), -2, 2, dtype)
+    out.append(Inst("AddLowRank(Dense)", lambda c: (lambda s, t: (DenseLinearOperator(s).add_low_rank(t), A + V @ V.mT, [s, t]))(c(A), c(V)), psd=True))
+    out.append(Inst("AddJitter(Dense)", lambda c: (lambda s: (DenseLinearOperator(s).add_jitter(0.5), A + 0.5 * torch.eye(n, dtype=dtype), [s]))(c(A)), psd=True))
+    K1, K2 = psd_int(rng, batch, 2, dtype), psd_int(rng, batch, n, dtype)
+    out.append(Inst("Slice(Kronecker)", lambda c: (lambda s, t: (KroneckerProductLinearOperator(s, t)[..., 1:5, 1:5], kron(K1, K2)[..., 1:5, 1:5], [s, t]))(c(K1), c(K2)), psd=True))
+    out.append(Inst("Scaled(Dense)", lambda c: (lambda s: (DenseLinearOperator(s) * 2.0, 2.0 * A, [s]))(c(A)), psd=True))
+    col = ri(rng, (*batch, n), 0, 1, dtype)
+    col[..., 0] += 2 * n
+    d = ri(rng, (*batch, n), 1, 3, dtype)
+    out.append(Inst("Toeplitz+Diag", lambda c: (lambda s, t: (ToeplitzLinearOperator(s) + DiagLinearOperator(t), toeplitz_dense(col) + torch.diag_embed(d), [s, t]))(c(col), c(d)), psd=True))
+    return out
+
+
 def run(chk, only=None):
     import linear_operator
     from linear_operator import settings
@@ -111,12 +144,15 @@ def run(chk, only=None):
                     insts += [(it, 1) for it in catalogue.instances(chk.rng, dtype, batch, 1, psd=True, depth=1)]
                     if not quick:
                         insts += [(it, 4) for it in catalogue.instances(chk.rng, dtype, batch, 4, psd=True, depth=2)]
+                insts += [(it, 3) for it in extra_instances(chk.rng, dtype, batch)]
                 for it, nsz in insts:
                     for cname, cfg in configs:
                         if cname != "default" and (dtype == torch.float32 or (quick and batch != ())):
                             continue
                         if cname == "ciq" and (quick and it.name not in ("Dense[psd]", "Kronecker", "AddedDiag", "Diag")):
                             continue
+                        if it.name.startswith(("CatRows", "AddLowRank")) and cname in ("lanczos", "ciq"):
+                            continue  # transplants assume mutually inverse cached roots (open finding D30 for Lanczos roots)
                         if cname.startswith("after-") and quick and it.name not in (
                                 "Dense[psd]", "Kronecker", "AddedDiag", "Toeplitz", "KroneckerAddedDiag[const]", "PsdSum",
                                 "BlockDiag", "SumBatch", "ConstantMul", "Sum(Kronecker,Diag)", "LowRankRootAddedDiag"):
